@@ -5,13 +5,30 @@ package main
 import (
 	"fmt"
 	"os"
+	"syscall"
 )
+
+// out is the harness's own output channel: file descriptor 1 is pointed at /dev/null for the
+// life of the process, because the application's package-level loggers write to it.
+var out *os.File
+
+func say(format string, a ...interface{}) { fmt.Fprintf(out, format, a...) }
 
 type subcmd func(args []string) int
 
 var subcmds = map[string]subcmd{}
 
 func main() {
+	saved, err := syscall.Dup(1)
+	if err != nil {
+		panic(err)
+	}
+	out = os.NewFile(uintptr(saved), "harness-out")
+	dn, _ := os.OpenFile(os.DevNull, os.O_WRONLY, 0)
+	syscall.Dup2(int(dn.Fd()), 1)
+	if os.Getenv("VH_DEBUG") == "" {
+		syscall.Dup2(int(dn.Fd()), 2)
+	}
 	if len(os.Args) < 2 {
 		fmt.Fprintln(os.Stderr, "usage: vh <subcommand> [flags]")
 		os.Exit(2)
